@@ -219,44 +219,65 @@ namespace
     static_assert(input_buf_size <= std::numeric_limits<decltype(stream.avail_in)>::max());
     static_assert(output_buf_size <= std::numeric_limits<decltype(stream.avail_out)>::max());
 
-    zerr = Z_OK;
-    while (zerr != Z_STREAM_END)
+    avail_in_type got = 0;
+    auto fill_input_buffer = [&]()
       {
 	errno = 0;
-	auto got = stream.avail_in = static_cast<avail_in_type>(fread(input_buffer, 1, input_buf_size, f));
+	got = stream.avail_in = static_cast<avail_in_type>(fread(input_buffer, 1, input_buf_size, f));
 	if (ferror(f))
 	  {
 	    throw DFS::FileIOError(name, errno);
 	  }
-	// We rely on zlib to detect the end of the input stream.  If
-	// there is no more input here we will pass avail_in=0 to
-	// inflate() which tells it there is no more input.  If that
-	// means the input is incomplete, it will return zerr != Z_OK
-	// and we will issue a diagnostic.  However, if we were
-	// reading a file compressed with compress(1) (e.g. foo.ssd.Z)
-	// then we might have to recognise the end of the input stream
-	// with physical EOF.   I don't think it's possible to identify
-	// when a foo.Z file has been truncated.
 	stream.next_in = input_buffer;
-	do  // decompress some data from the input buffer.
+      };
+
+    // A gzip file is a sequence of one or more members (this is what
+    // you get if you catenate two .gz files) and the uncompressed
+    // data is the catenation of the contents of the members.
+    for (;;)
+      {
+	zerr = Z_OK;
+	while (zerr != Z_STREAM_END)
 	  {
-	    stream.next_out = output_buffer;
-	    stream.avail_out = output_buf_size;
-	    zerr = inflate(&stream, Z_NO_FLUSH);
-	    const size_t bytes_to_write = output_buf_size - stream.avail_out;
-	    errno = 0;
-	    const size_t bytes_written = fwrite(output_buffer, 1, bytes_to_write, fout);
-	    if (bytes_written != bytes_to_write)
-	      throw DFS::FileIOError(name, errno);
-	    if (zerr == Z_BUF_ERROR && got)
+	    // We rely on zlib to detect the end of the input stream.  If
+	    // there is no more input here we will pass avail_in=0 to
+	    // inflate() which tells it there is no more input.  If that
+	    // means the input is incomplete, it will return zerr != Z_OK
+	    // and we will issue a diagnostic.  However, if we were
+	    // reading a file compressed with compress(1) (e.g. foo.ssd.Z)
+	    // then we might have to recognise the end of the input stream
+	    // with physical EOF.   I don't think it's possible to identify
+	    // when a foo.Z file has been truncated.
+	    if (stream.avail_in == 0)
+	      fill_input_buffer();
+	    do  // decompress some data from the input buffer.
 	      {
-		// Want more input data.
-		break;
+		stream.next_out = output_buffer;
+		stream.avail_out = output_buf_size;
+		zerr = inflate(&stream, Z_NO_FLUSH);
+		const size_t bytes_to_write = output_buf_size - stream.avail_out;
+		errno = 0;
+		const size_t bytes_written = fwrite(output_buffer, 1, bytes_to_write, fout);
+		if (bytes_written != bytes_to_write)
+		  throw DFS::FileIOError(name, errno);
+		if (zerr == Z_BUF_ERROR && got)
+		  {
+		    // Want more input data.
+		    break;
+		  }
+		if (zerr != Z_STREAM_END)
+		  check_zlib_error_code(zerr);
 	      }
-	    if (zerr != Z_STREAM_END)
-	      check_zlib_error_code(zerr);
+	    while (stream.avail_out == 0);
 	  }
-	while (stream.avail_out == 0);
+	// That was the end of a member.  If another member follows,
+	// decompress that too.  Like gzip, we ignore trailing data
+	// which doesn't look like a gzip member.
+	if (stream.avail_in == 0)
+	  fill_input_buffer();
+	if (stream.avail_in == 0 || stream.next_in[0] != 0x1F)
+	  break;
+	check_zlib_error_code(inflateReset(&stream));
       }
   }
 
